@@ -381,9 +381,64 @@ impl ZProc {
         }
         true
     }
+    /// zinoma and every descendant are asleep and none of them used any CPU over the samples:
+    /// with scripts and commands that only do trivial work this is a deadlock *with* children
+    /// (e.g. a command blocked on a pipe nobody drains).
+    pub fn is_stuck_with_children(&self, interval: Duration, samples: usize) -> bool {
+        fn descendants(pid: i32) -> Vec<i32> {
+            let mut out = vec![];
+            let mut stack = vec![pid];
+            let all = all_pids();
+            while let Some(p) = stack.pop() {
+                for &c in &all {
+                    if proc_ppid(c) == Some(p) && !out.contains(&c) {
+                        out.push(c);
+                        stack.push(c);
+                    }
+                }
+            }
+            out
+        }
+        let snapshot = |pid: i32| -> Option<Vec<(i32, u64)>> {
+            let mut v = vec![(pid, proc_cpu_ticks(pid)?)];
+            for d in descendants(pid) {
+                match proc_state(d) {
+                    Some('S') | Some('Z') => v.push((d, proc_cpu_ticks(d).unwrap_or(0))),
+                    _ => return None,
+                }
+            }
+            Some(v)
+        };
+        let mut last = match snapshot(self.pid) {
+            Some(s) if s.len() > 1 => s,
+            _ => return false,
+        };
+        for _ in 0..samples {
+            std::thread::sleep(interval);
+            if !proc_threads_all_sleeping(self.pid) {
+                return false;
+            }
+            match snapshot(self.pid) {
+                Some(s) if s == last => {}
+                Some(s) => {
+                    last = s;
+                    return false;
+                }
+                None => return false,
+            }
+        }
+        true
+    }
+
+    pub fn wait(self, budget: Duration, hang_detect: bool) -> ZOutcome {
+        self.wait_ext(budget, hang_detect, false)
+    }
+
     /// Wait for exit. `hang_detect`: declare a deadlock by quiescence (one-shot runs with
-    /// terminating scripts only). Budget exhaustion while still busy = timed_out.
-    pub fn wait(mut self, budget: Duration, hang_detect: bool) -> ZOutcome {
+    /// terminating scripts only). `stuck_children`: also declare a deadlock when zinoma and all
+    /// its (trivial) children sleep without any CPU progress. Budget exhaustion while still busy
+    /// = timed_out.
+    pub fn wait_ext(mut self, budget: Duration, hang_detect: bool, stuck_children: bool) -> ZOutcome {
         let deadline = self.started + budget;
         let mut hung = false;
         let mut timed_out = false;
@@ -396,7 +451,9 @@ impl ZProc {
             }
             let now = Instant::now();
             if hang_detect && now >= next_probe {
-                if self.is_quiescent(Duration::from_millis(500), 3) {
+                if self.is_quiescent(Duration::from_millis(500), 3)
+                    || (stuck_children && self.started.elapsed() > Duration::from_secs(4) && self.is_stuck_with_children(Duration::from_millis(700), 4))
+                {
                     if let Some(s) = self.try_exit() {
                         status = Some(s);
                         break;
